@@ -11,6 +11,7 @@ package rt
 
 import (
 	"fmt"
+	"os"
 	"reflect"
 	"runtime"
 	"sort"
@@ -80,6 +81,15 @@ type alt struct {
 	pcase   int
 	kind    int // deviation kind if this alternative is not the default one, -1 for scheduling
 	timer   bool
+	env     *envEvent
+}
+
+// envEvent is an environment event (a request cancellation, ...) that the explorer may deliver at
+// any scheduling point, at most once, for one `timer` deviation.
+type envEvent struct {
+	name  string
+	f     func()
+	fired bool
 }
 
 // Point is one recorded choice.
@@ -101,6 +111,7 @@ type Sched struct {
 	prefix   []int
 	Points   []Point
 	closed   map[uintptr]bool
+	pinned   map[uintptr]reflect.Value // every channel the runtime has keyed by address stays reachable, so its address cannot be reused within the execution
 	Trace    []string
 	keepTrace bool
 	Deadlock  bool
@@ -126,6 +137,7 @@ type Sched struct {
 	panicStack string
 	envHash   uint64
 	idleOK    map[*Thread]bool
+	envs      []*envEvent
 	delayMode bool // every non-default scheduling alternative costs one deviation (delay bounding)
 	frozen    bool // setup/teardown phase: default choice everywhere, nothing recorded, nothing explored
 }
@@ -189,7 +201,7 @@ func (s *Sched) fingerprint() uint64 {
 type abortSignal struct{}
 
 func newSched(prefix []int, cfg *Config) *Sched {
-	s := &Sched{prefix: prefix, closed: map[uintptr]bool{}, maxSteps: cfg.MaxSteps, done: make(chan struct{}), oh: map[any]uint64{}, idleOK: map[*Thread]bool{}}
+	s := &Sched{prefix: prefix, closed: map[uintptr]bool{}, pinned: map[uintptr]reflect.Value{}, maxSteps: cfg.MaxSteps, done: make(chan struct{}), oh: map[any]uint64{}, idleOK: map[*Thread]bool{}}
 	if s.maxSteps == 0 {
 		s.maxSteps = 2000
 	}
@@ -213,7 +225,16 @@ func (s *Sched) run(main func()) {
 		defer s.threadExit(t)
 		main()
 	}()
-	<-s.done
+	select {
+	case <-s.done:
+	case <-time.After(90 * time.Second):
+		// an execution takes milliseconds; this is a lost hand-off inside the runtime or a thread blocked natively
+		buf := make([]byte, 4<<20)
+		n := runtime.Stack(buf, true)
+		s.mu.Lock()
+		fmt.Fprintf(os.Stderr, "rt: WATCHDOG: execution made no progress for 90s\nscheduler view:\n%s\ncur=%v transit=%d stopping=%v points=%d prefix=%v\n%s\n", s.describe(), s.cur != nil && true, s.transit, s.stopping, len(s.Points), s.prefix, string(buf[:n]))
+		os.Exit(3)
+	}
 	c := make(chan struct{})
 	go func() { s.live.Wait(); close(c) }()
 	select {
@@ -310,14 +331,23 @@ func (s *Sched) yield(k opKind, fill func(t *Thread)) int {
 	return v
 }
 
+// key returns the identity of a channel and pins the channel for the rest of the execution.
+func (s *Sched) key(ch reflect.Value) uintptr {
+	p := ch.Pointer()
+	if _, ok := s.pinned[p]; !ok {
+		s.pinned[p] = ch
+	}
+	return p
+}
+
 func (s *Sched) chReady(ch reflect.Value, send bool) bool {
 	if !ch.IsValid() || ch.IsNil() {
 		return false
 	}
 	if send {
-		return s.closed[ch.Pointer()] || ch.Len() < ch.Cap()
+		return s.closed[s.key(ch)] || ch.Len() < ch.Cap()
 	}
-	if ch.Len() > 0 || s.closed[ch.Pointer()] {
+	if ch.Len() > 0 || s.closed[s.key(ch)] {
 		return true
 	}
 	if ch.Type().ChanDir()&reflect.RecvDir == 0 {
@@ -329,7 +359,7 @@ func (s *Sched) chReady(ch reflect.Value, send bool) bool {
 		if ok {
 			panic("rt: a value arrived on a channel from an uninstrumented sender")
 		}
-		s.closed[ch.Pointer()] = true
+		s.closed[s.key(ch)] = true
 		return true
 	}
 	return false
@@ -412,6 +442,11 @@ func (s *Sched) alternatives(cur *Thread) []alt {
 	// virtual timers that are armed but not due: firing one is a `timer` deviation (the clock jumps)
 	if quiesce != nil || len(out) > 0 {
 		out = append(out, timers...)
+		for _, e := range s.envs {
+			if !e.fired {
+				out = append(out, alt{kind: KTimer, timer: true, env: e})
+			}
+		}
 	}
 	return out
 }
@@ -548,6 +583,17 @@ func (s *Sched) pickNext(from *Thread) {
 		s.cost[c]++
 	}
 	s.Points = append(s.Points, Point{Kind: -1, NAlt: len(alts), Chosen: idx, AltCost: costs})
+	if e := alts[idx].env; e != nil {
+		// deliver the environment event, then decide again from the same parked state
+		e.fired = true
+		s.envHash = mix(s.envHash, 91, hstr(e.name), uint64(len(s.Points)))
+		if s.keepTrace {
+			s.Trace = append(s.Trace, "env:"+e.name)
+		}
+		e.f()
+		s.pickNext(from)
+		return
+	}
 	s.dispatch(alts[idx])
 }
 
@@ -579,7 +625,7 @@ func (s *Sched) dispatch(a alt) {
 			t.h = mix(t.h, 55, uint64(s.clock))
 		} else if a.caseIdx >= 0 {
 			c := t.commCases()[a.caseIdx]
-			key := c.ch.Pointer()
+			key := s.key(c.ch)
 			if a.partner != nil {
 				h := mix(t.h, a.partner.h, s.oh[key], uint64(a.caseIdx), uint64(a.pcase))
 				t.h, a.partner.h, s.oh[key] = mix(h, 1), mix(h, 2), h
@@ -591,7 +637,7 @@ func (s *Sched) dispatch(a alt) {
 		} else {
 			for _, c := range t.cases {
 				if c.ch.IsValid() && !c.ch.IsNil() {
-					s.read(t, c.ch.Pointer(), 30)
+					s.read(t, s.key(c.ch), 30)
 				}
 			}
 		}
@@ -711,6 +757,15 @@ func Stop() {
 	}
 	s.mu.Unlock()
 	runtime.Goexit()
+}
+
+// EnvEvent registers an environment event that the explorer may deliver (call f, which must not
+// block or call back into the runtime) at any later scheduling point, at most once.
+func EnvEvent(name string, f func()) {
+	s := S
+	s.mu.Lock()
+	s.envs = append(s.envs, &envEvent{name: name, f: f})
+	s.mu.Unlock()
 }
 
 // Freeze(true) starts a setup/teardown phase: the scheduler takes the default alternative at every
